@@ -104,7 +104,7 @@ func (e *Engine) helperGuards(g Guard) []Guard {
 	if !ok {
 		return nil
 	}
-	fn := call.Common().StaticCallee()
+	fn := Devirt(call.Common())
 	if fn == nil || fn.Blocks == nil || fn.Pkg == nil || !smPkgs[fn.Pkg.Pkg.Path()] {
 		return nil
 	}
@@ -440,7 +440,7 @@ func (e *Engine) helperDisjuncts(g Guard) []Guard {
 	if !ok {
 		return nil
 	}
-	fn := call.Common().StaticCallee()
+	fn := Devirt(call.Common())
 	if fn == nil || fn.Blocks == nil || fn.Pkg == nil || !smPkgs[fn.Pkg.Pkg.Path()] {
 		return nil
 	}
